@@ -9,6 +9,12 @@ CHECKS = {
 CHECKS["C02"] = ("exploration", "differential PBT (Hypothesis) vs builtins/functools/heapq plus argument-mutation oracle",
   "Generated inputs (ties, empty, mixed numerics, unorderable/unhashable), list/iterator/async input, key/default/start/initial/n combinations compared with the stdlib result (identity of selected Items, exception type); every argument object must be structurally unchanged afterwards.",
   "CPython 3.12 stdlib is the oracle; dyadic floats (exact sums); no NaN/partial orders", "4/C02")
+CHECKS["C05"] = ("exploration", "differential trace PBT: interleaved pull/call/yield event logs vs the stdlib, instrumented doubles",
+  "Full interleaved event log (pulls, end-of-source detections, calls with argument identities, yields) of each asynchronous tool equals the stdlib counterpart's for generated inputs and consumer step counts; detects read-ahead, over/under-consumption and eager evaluation.",
+  "equivalence = equality after deleting re-polls of already exhausted sources; CPython 3.12 evaluation order is the reference", "4/C05")
+CHECKS["C06"] = ("fault_enumeration", "exhaustive single-fault injection per generated case, differential vs the stdlib under the same fault",
+  "For each generated case EVERY use (pull incl. end-of-data pull, call) of every source/callable is failed in turn with a planned exception object; the asynchronous run must deliver the same items, raise that very object, and (iterator tools) show the same event log as the stdlib under the same fault.",
+  "single faults only; StopIteration-family exceptions are not injected; bounded inputs", "4/C06")
 REASONS = {}
 props = [json.loads(l)["id"] for l in open(os.path.join(HERE, "properties.jsonl"))]
 checks = []
